@@ -95,6 +95,20 @@ PROPS = {
 }
 
 
+# bounded Kani scenarios that exercise a queue function on the real code: used when Verus cannot follow that function in a tree
+_Q_FALLBACK = {
+    'VirtQueue::add': ['k_life_direct', 'k_refuse'],
+    'VirtQueue::add_direct': ['k_life_direct', 'k_two_direct'],
+    'VirtQueue::add_indirect': ['k_life_indirect'],
+    'VirtQueue::recycle_descriptors': ['k_life_direct', 'k_life_indirect', 'k_two_direct'],
+    'VirtQueue::pop_used': ['k_life_direct', 'k_two_direct'],
+    'VirtQueue::can_pop': ['k_life_direct_anyidx'],
+    'VirtQueue::should_notify': ['c05_should_notify_full_domain'],
+    'VirtQueue::set_dev_notify': ['c05_set_dev_notify'],
+}
+for _p in ('C01', 'C02', 'C03', 'C04', 'C05', 'C07'):
+    PROPS[_p].setdefault('fallback_kani', dict(_Q_FALLBACK))
+
 # Properties configured by separate files props.d/<ID>.json (same keys as above; "assumptions" is a list of strings).
 import glob as _glob, json as _json, os as _os
 for _f in sorted(_glob.glob(_os.path.join(_os.path.dirname(_os.path.abspath(__file__)), '..', 'props.d', '*.json'))):
